@@ -70,7 +70,20 @@ class _Canon(ast.NodeTransformer):
         self.generic_visit(node)
         # `a if not t else b` -> `b if t else a`
         if isinstance(node.test, ast.UnaryOp) and isinstance(node.test.op, ast.Not):
-            return ast.IfExp(test=node.test.operand, body=node.orelse, orelse=node.body)
+            node = ast.IfExp(test=node.test.operand, body=node.orelse, orelse=node.body)
+        # boolean-valued conditionals: `True if t else b` -> `t or b`; `False if t else b` -> `not t and b`;
+        # `b if t else False` -> `t and b`; `b if t else True` -> `not t or b`
+        def is_const(x, v):
+            return isinstance(x, ast.Constant) and x.value is v
+
+        if is_const(node.body, True):
+            return self.visit(ast.BoolOp(op=ast.Or(), values=[node.test, node.orelse]))
+        if is_const(node.orelse, False) and not is_const(node.body, False):
+            return self.visit(ast.BoolOp(op=ast.And(), values=[node.test, node.body]))
+        if is_const(node.body, False):
+            return self.visit(ast.BoolOp(op=ast.And(), values=[self.visit(ast.UnaryOp(op=ast.Not(), operand=node.test)), node.orelse]))
+        if is_const(node.orelse, True):
+            return self.visit(ast.BoolOp(op=ast.Or(), values=[self.visit(ast.UnaryOp(op=ast.Not(), operand=node.test)), node.body]))
         return node
 
     def visit_Call(self, node: ast.Call):
